@@ -27,8 +27,10 @@ def audit(Q, option_of, rep, activity, tol=1e-9, exact=False):
     if exact:
         tol = 0
     samples = defaultdict(list)
+    drawn_for = {}
     for tag, t, ind, v in Q.built.samples:
         if tag[0] == "srv":
+            drawn_for[(ind, tag[1], len(samples[(ind, tag[1])]))] = tag[2]      # class whose distribution produced the k-th sample of (customer, node)
             samples[(ind, tag[1])].append((t, v))
     inds = list(Q.nodes[-1].all_individuals)
     for nd in Q.transitive_nodes:
@@ -99,6 +101,13 @@ def audit(Q, option_of, rep, activity, tol=1e-9, exact=False):
             need = len(ep) if opt == "resample" else 1
             ss = S_[p0:p0 + need]
             ptr[nid] = p0 + need
+            # the sample of an episode comes from the distribution of the class the customer has while that episode is served (an interruption
+            # record carries that class; a final service record may carry the class after a class change at the end of service)
+            for j_, x in enumerate(ep[:len(ss)] if opt == "resample" else ep[:1]):
+                if x.record_type == "interrupted service" and drawn_for.get((ind.id_number, nid, p0 + j_)) not in (None, x.customer_class):
+                    rep("sample-drawn-for-the-current-class", {"customer": ind.id_number, "node": nid, "class_served": x.customer_class,
+                                                               "sampled_for": drawn_for.get((ind.id_number, nid, p0 + j_))})
+                    break
             if len(ep) < 2 and ep[0].record_type == "service":
                 if len(ss) != 1 or ss[0][0] != ep[0].service_start_date:
                     rep("one-sample-per-uninterrupted-service", {"customer": ind.id_number, "node": nid, "samples": ss, "start": O._num(ep[0].service_start_date)})
